@@ -196,7 +196,7 @@ void h_ProcessFile_lines(void) {
 }
 
 #ifdef VERIF_S5ONLY
-/* Motorola S5 (record count) record for a data record of ANY length 1..65535 and any line length 1..255: count field and
+/* Motorola S5 (record count) record for a data record of ANY length 1..65535 (line lengths 1, 2, 16, 32, 255): count field and
  * checksum by the public definition (the line monitor checks the checksum of every S line).  The path is cut after the S5
  * line; the data lines themselves are the subject of hex_lines_MotoS_*. */
 void h_ProcessFile_S5(void) {
@@ -215,7 +215,7 @@ void h_ProcessFile_S5(void) {
     DestFormat = eHexFormatMotoS; ForceSegment = SegNone; MultiMode = 0; AVRLen = 3;
     RelAdr = 0; Relocate = 0; Rec5 = 1; VND(SepMoto, uchar); VASSUME(SepMoto <= 1);
     VND(MinMoto, uchar); VASSUME(MinMoto >= 1 && MinMoto <= 3);
-    VND(LineLen, uint); VASSUME(LineLen >= 1 && LineLen <= 255);
+    LineLen = VERIF_LINELEN;   /* one group per line length: the division by a symbolic line length did not finish */
     for (i = 0; i < SegCount; i++) { StartAdr[i] = 0; StopAdr[i] = 0xffffffffu; }
     VASSUME(start <= 0xffff0000u);
     FormatOccured = 0; MaxMoto = 0; MaxIntel = 0; EntryAdrPresent = False;
